@@ -229,6 +229,56 @@ impl Prop for C13 {
                 }
             }
         }
+        // D5: long streams on one reader: 300 and 70 000 frames of the three kinds in rotation (anything that counts or
+        // accumulates per frame shows), whole and 7 bytes at a time; through tpkt and through x224
+        for n in [300usize, 70_000] {
+            for via_x224 in [false, true] {
+                let frames: Vec<FrameSpec> = (0..n).map(|i| match i % 3 {
+                    0 => if via_x224 { FrameSpec::TpktX224((i % 11) as u16) } else { FrameSpec::Tpkt((4 + i % 11) as u16) },
+                    1 => FrameSpec::FpShort(if i % 2 == 0 { 0x00 } else { 0x80 }, (2 + i % 9) as u8),
+                    _ => FrameSpec::FpLong(0x40, (3 + i % 200) as u16),
+                }).collect();
+                cs.push(Case { frames: frames.clone(), plan: Plan::All, via_x224 });
+                if n == 300 {
+                    cs.push(Case { frames, plan: Plan::Cap(7), via_x224 });
+                }
+            }
+        }
+        // D6: several frames above 32 KiB on one reader, in every order of size (a receive buffer kept between reads
+        // and grown on demand shows only when a larger frame follows a large one)
+        {
+            let sizes = [32764usize, 32769, 40000, 50000, 65531];
+            for a in sizes {
+                for b in sizes {
+                    for via_x224 in [false, true] {
+                        let mk = |p: usize| if via_x224 { FrameSpec::TpktX224((p - 3) as u16) } else { FrameSpec::Tpkt((p + 4) as u16) };
+                        cs.push(Case { frames: vec![mk(a), mk(b), if via_x224 { FrameSpec::TpktX224(2) } else { SENT_FP }], plan: Plan::All, via_x224 });
+                    }
+                }
+            }
+            for plan in [Plan::All, Plan::Cap(16384)] {
+                cs.push(Case { frames: sizes.iter().map(|p| FrameSpec::Tpkt((*p + 4) as u16)).chain([SENT_FP, SENT_TPKT]).collect(), plan: plan.clone(), via_x224: false });
+                cs.push(Case { frames: sizes.iter().rev().map(|p| FrameSpec::Tpkt((*p + 4) as u16)).chain([SENT_FP, SENT_TPKT]).collect(), plan, via_x224: false });
+            }
+        }
+        // D7: the stream ends inside the body of a frame (1, 2, 100 bytes or half of the body missing), small and large
+        // bodies, whole and in pieces: an error, never a shorter payload
+        for payload in [1usize, 5, 200, 4095, 4096, 4097, 8192, 20000, 32767, 65531] {
+            for big in [FrameSpec::Tpkt((payload + 4) as u16), FrameSpec::FpLong(0x80, (payload + 3).min(0x7fff) as u16)] {
+                let whole = frame_bytes(&big, 0);
+                for missing in [1usize, 2, 100, payload / 2] {
+                    if missing == 0 || missing >= whole.len() - 3 {
+                        continue;
+                    }
+                    for plan in [Plan::All, Plan::Cap(1460), Plan::Cap(1)] {
+                        if matches!(plan, Plan::Cap(1)) && payload > 5000 {
+                            continue;
+                        }
+                        cs.push(Case { frames: vec![SENT_FP, FrameSpec::Raw(whole[..whole.len() - missing].to_vec())], plan, via_x224: false });
+                    }
+                }
+            }
+        }
         // E2: through x224::Client::read, fast-path frames with and without payload between slow-path frames
         for fp in [FrameSpec::FpShort(0x00, 2), FrameSpec::FpShort(0x80, 2), FrameSpec::FpLong(0x40, 3), FrameSpec::FpShort(0x00, 3), FrameSpec::FpLong(0x00, 4)] {
             for plan in [Plan::All, Plan::Cap(1)] {
@@ -272,7 +322,7 @@ impl Prop for C13 {
         json!({"idx": idx, "case": c, "stream_len": stream_of(c).len()})
     }
     fn rule(&self) -> String {
-        "cases = (three-frame stream, read schedule); streams enumerate every TPKT length field 0..65535, every short fast-path length x every first byte, every 15-bit long-form length; schedules enumerate caps {1,2,3,4,5,7,1500}, every single split offset, all pairs of splits inside the first two headers, and all 2^(n-1) compositions of short streams; frames of 4100..65535 bytes delivered 1, 2, 3 or 7 bytes at a time; payloads of exactly 4096 / 8192 / 16384 / 32768 / 49152 bytes and their neighbours whole and in 1460 / 4096 / 16384-byte pieces; one read call failing with ErrorKind::Interrupted at every offset of three streams (the frames must come out all the same); a slow-path frame whose X.224 header is refused is followed by valid frames that must still be returned; streams read through x224::Client::read with fast-path frames with and without payload before, between and after slow-path frames. Additionally 14 full real conversations over TLS (NLA on/off, with a reactivation, inputs and shutdown) are run with the transport delivering at most k bytes per read for k in {1,2,3,5,7,16,1000}, and 54 more in which the server cuts every message into TLS records of at most {1,2,3,4,5,7,11,16,100} plaintext bytes (a read of the decrypted stream returns at most the rest of one record) over a transport delivering everything / 1 / 7 bytes per read. Non-trivial: first frame has an empty payload, or declares a length below its own header, or at least one split point falls inside a frame header.".into()
+        "cases = (three-frame stream, read schedule); streams enumerate every TPKT length field 0..65535, every short fast-path length x every first byte, every 15-bit long-form length; schedules enumerate caps {1,2,3,4,5,7,1500}, every single split offset, all pairs of splits inside the first two headers, and all 2^(n-1) compositions of short streams; frames of 4100..65535 bytes delivered 1, 2, 3 or 7 bytes at a time; payloads of exactly 4096 / 8192 / 16384 / 32768 / 49152 bytes and their neighbours whole and in 1460 / 4096 / 16384-byte pieces; one read call failing with ErrorKind::Interrupted at every offset of three streams (the frames must come out all the same); streams of 300 and 70 000 frames on one reader; two to five frames of 32 KiB .. 65535 bytes in every order of size on one reader; streams that end 1 / 2 / 100 bytes or half a body before the end of a frame of 1..65531 bytes (an error, never a shorter payload); a slow-path frame whose X.224 header is refused is followed by valid frames that must still be returned; streams read through x224::Client::read with fast-path frames with and without payload before, between and after slow-path frames. Additionally 14 full real conversations over TLS (NLA on/off, with a reactivation, inputs and shutdown) are run with the transport delivering at most k bytes per read for k in {1,2,3,5,7,16,1000}, and 54 more in which the server cuts every message into TLS records of at most {1,2,3,4,5,7,11,16,100} plaintext bytes (a read of the decrypted stream returns at most the rest of one record) over a transport delivering everything / 1 / 7 bytes per read. Non-trivial: first frame has an empty payload, or declares a length below its own header, or at least one split point falls inside a frame header.".into()
     }
     fn assumptions(&self) -> Vec<String> {
         vec![
@@ -285,7 +335,7 @@ impl Prop for C13 {
         json!({"bounds": {"tpkt_length_fields": 65536, "fp_short": "127 lengths x 255 first bytes", "fp_long": "32768 lengths x sec-flag patterns", "composition_bound_bytes": if self.tier == Some(Tier::Quick) {12} else {19}}})
     }
     fn run_case(&mut self, idx: u64) -> Outcome {
-        let c = self.cases[idx as usize].clone();
+        let c = crate::alloc::exempt(|| self.cases[idx as usize].clone());
         if let FrameSpec::Conversation(nla) = c.frames[0] {
             let cap = match c.plan {
                 Plan::Cap(k) => k,
@@ -317,37 +367,40 @@ impl Prop for C13 {
                 },
             };
         }
-        let stream = stream_of(&c);
-        let link = MemLink::scripted(&stream);
+        let stream = crate::alloc::exempt(|| stream_of(&c));
+        let link = crate::alloc::exempt(|| MemLink::scripted(&stream));
         link.sh.borrow_mut().read_plan = plan_of(&c.plan, stream.len());
         if let Plan::InterruptedAt(o) = c.plan {
             link.sh.borrow_mut().read_err_once_at = Some((o, std::io::ErrorKind::Interrupted));
         }
         let sh = link.sh.clone();
-        // reference expectation
-        let mut expect = vec![];
-        let mut pos = 0;
-        let mut terminal; // what must happen after the expected frames
-        loop {
-            match framing::deframe(&stream[pos..]) {
-                Deframe::Frame(f, n) => {
-                    expect.push((f, pos + n));
-                    pos += n;
-                    terminal = "eof";
-                    if pos == stream.len() {
+        // reference expectation (harness bookkeeping: not counted as the client's memory)
+        let (expect, terminal) = crate::alloc::exempt(|| {
+            let mut expect = vec![];
+            let mut pos = 0;
+            let mut terminal; // what must happen after the expected frames
+            loop {
+                match framing::deframe(&stream[pos..]) {
+                    Deframe::Frame(f, n) => {
+                        expect.push((f, pos + n));
+                        pos += n;
+                        terminal = "eof";
+                        if pos == stream.len() {
+                            break;
+                        }
+                    }
+                    Deframe::Reject => {
+                        terminal = "reject";
+                        break;
+                    }
+                    Deframe::Incomplete => {
+                        terminal = "incomplete";
                         break;
                     }
                 }
-                Deframe::Reject => {
-                    terminal = "reject";
-                    break;
-                }
-                Deframe::Incomplete => {
-                    terminal = "incomplete";
-                    break;
-                }
             }
-        }
+            (expect, terminal)
+        });
         let undefined_first = !framing::first_byte_defined(stream[0]);
         let mut nontrivial = false;
         match &c.frames[0] {
@@ -357,7 +410,7 @@ impl Prop for C13 {
             _ => {}
         }
         // does a split fall inside a header?
-        {
+        crate::alloc::exempt(|| {
             let hdr_ranges: Vec<(usize, usize)> = {
                 let mut v = vec![];
                 let mut p = 0;
@@ -374,7 +427,7 @@ impl Prop for C13 {
                 _ => vec![],
             };
             nontrivial |= cuts.iter().any(|c| hdr_ranges.iter().any(|(a, b)| c > a && c < b));
-        }
+        });
 
         enum Cl {
             T(tpkt::Client<MemLink>),
